@@ -43,7 +43,8 @@ def correspondence(ctx):
         if rng.random() < 0.5:
             psf = psf * float(rng.uniform(0.6, 1.8))     # not normalised
         for i in range(4 if quick else 10):
-            scenes.append(RC.gen_scene(rng, kind, N, psf, mode="single", types=[RC.PROFILE_TYPES[(i + N) % 7]], **opts))
+            # both public entry points: render_source and (one-source catalogue) render_for_model
+            scenes.append(RC.gen_scene(rng, kind, N, psf, mode="single" if i % 2 == 0 else "multi", types=[RC.PROFILE_TYPES[(i + N) % 7]], **opts))
     for npr in (0, 15):
         psf = RC.asym_psf(rng, 5)
         scenes.append(RC.gen_scene(rng, "hybrid", 16, psf, mode="single", types=["sersic"], npr=npr))
@@ -126,8 +127,8 @@ def gen_flux_scenes(ctx, n_per_kind):
             N = int(rng.choice([64, 65, 96]))
             s = int(rng.choice([7, 8, 11, 12]))
             psf = RC.smooth_asym_psf(rng, s)
-            if rng.random() < 0.4:
-                psf = psf * float(rng.uniform(0.5, 2.0))
+            if i % 3 != 0:
+                psf = psf * float(rng.uniform(0.5, 2.0))      # "normalised or not"
             t = RC.PROFILE_TYPES[i % 7]
             lo_n, hi_n = (0.8, 2.5) if kind == "pixel" else (0.8, 6.0)
             sc = RC.gen_scene(rng, kind, N, psf, types=[t], mode="single", suffix="", pos_styles=("frac",), n_range=(lo_n, hi_n))
@@ -153,6 +154,9 @@ def gen_flux_scenes(ctx, n_per_kind):
             if t == "pointsource":
                 p["xc"] = float(rng.uniform(s, N - 1 - s))
                 p["yc"] = float(rng.uniform(s, N - 1 - s))
+            sc["via_model"] = bool((i // 7 + i) % 2)          # the scene as the numpyro model renders it (render_for_model)
+            if kind != "pixel" and i % 5 == 4 and t != "pointsource":
+                sc["interp"] = False                          # amplitudes decomposed per call; judged in 64-bit mode
             out.append(RC.cast32_scene(sc))
     return out
 
@@ -163,8 +167,13 @@ def flux_child(payload):
     for sc in payload["scenes"]:
         try:
             R = RC.build_renderer(sc)
-            P = {k: jnp.asarray(v, dtype=jnp.float32) for k, v in sc["params"].items()}
-            img = np.asarray(R.render_source(P, sc["types"][0]), dtype=np.float64)
+            ft = jnp.float32 if sc.get("interp", True) else jnp.float64
+            if sc.get("via_model"):
+                P = {f"{k}_0": jnp.asarray(v, dtype=ft) for k, v in sc["params"].items()}
+                img = np.asarray(R.render_for_model(P, [sc["types"][0]], ""), dtype=np.float64)
+            else:
+                P = {k: jnp.asarray(v, dtype=ft) for k, v in sc["params"].items()}
+                img = np.asarray(R.render_source(P, sc["types"][0]), dtype=np.float64)
             out.append(dict(total=float(img.sum()), finite=bool(np.isfinite(img).all())))
         except Exception as e:
             out.append(dict(error=f"{type(e).__name__}: {str(e)[:160]}"))
@@ -271,8 +280,12 @@ def residual(ctx):
 
 def flux_run(ctx, scenes):
     w = min(ctx.workers, 8)
-    chunks = RC.chunked(scenes, w)
-    res = RC.unchunk(run_children("c01", "flux_child", [dict(scenes=ch) for ch in chunks], x64=False, workers=w), len(scenes))
+    std = [s for s in scenes if s.get("interp", True)]
+    direct = [s for s in scenes if not s.get("interp", True)]
+    res = RC.unchunk(run_children("c01", "flux_child", [dict(scenes=ch) for ch in RC.chunked(std, w)], x64=False, workers=w), len(std)) if std else []
+    if direct:
+        res = res + RC.unchunk(run_children("c01", "flux_child", [dict(scenes=ch) for ch in RC.chunked(direct, min(w, len(direct)))], x64=True, workers=w), len(direct))
+    scenes = std + direct
     out = []
     for s, r in zip(scenes, res):
         for clause, msg in judge_flux(s, r):
